@@ -150,6 +150,8 @@ pub struct Profile {
     pub max_write_clusters: u64,
     /// weights for refcount_order 0..6 (None = uniform from min_refcount_order)
     pub order_weights: Option<[u32; 7]>,
+    /// percent of 512-byte-cluster images whose L1 table spans several 512-byte blocks
+    pub wide_l1_pct: u32,
 }
 
 impl Default for Profile {
@@ -169,6 +171,7 @@ impl Default for Profile {
             max_cluster_bits: 21,
             l1_short_pct: 0,
             multi_l1: true,
+            wide_l1_pct: 8,
             max_write_clusters: 8,
             order_weights: None,
         }
@@ -217,6 +220,10 @@ pub fn gen_vsize(s: &mut Src, cb: u8, align_bits: u8, p: &Profile) -> u64 {
     let big = cb >= 17;
     let n = if big {
         1 + s.pick(6) as u64
+    } else if p.multi_l1 && cb == 9 && s.chance(p.wide_l1_pct, 100) {
+        // wide L1: more than 64 entries, i.e. the L1 table spans several 512-byte blocks of
+        // the top-table dirty-block queue (2..2.3 MiB virtual size)
+        l2e * (64 + s.pick(6) as u64) + 1 + s.pick(8) as u64
     } else {
         match s.weighted(&[30, 40, 20, 10]) {
             0 => 1 + s.pick(4) as u64,
@@ -518,4 +525,57 @@ pub fn gen_reopen_params(extra: &[u16], case: &SeqCase, max_bs_bits: u8, n: usiz
     let mut s = Src::new(extra);
     let min_cb = case.layers.iter().map(|l| l.cluster_bits()).min().unwrap_or(9);
     (0..n).map(|_| gen_params(&mut s, min_cb, max_bs_bits, 20)).collect()
+}
+
+impl RawCase {
+    /// Decode a fuzzer-provided byte string into a RawCase (structure-aware: fixed head, then
+    /// counts, then little-endian u16 values; missing bytes read as 0).
+    pub fn from_bytes(data: &[u8]) -> RawCase {
+        let mut i = 0usize;
+        let mut u16s = || -> u16 {
+            let a = data.get(i).copied().unwrap_or(0) as u16;
+            let b = data.get(i + 1).copied().unwrap_or(0) as u16;
+            i += 2;
+            a | (b << 8)
+        };
+        let head: Vec<u16> = (0..HEAD_LEN).map(|_| u16s()).collect();
+        let n_img = (u16s() % 25) as usize;
+        let n_ops = (u16s() % 41) as usize;
+        let n_sched = (u16s() % 201) as usize;
+        let n_extra = (u16s() % 49) as usize;
+        let img = (0..n_img).map(|_| [u16s(), u16s()]).collect();
+        let ops = (0..n_ops).map(|_| [u16s(), u16s(), u16s(), u16s(), u16s(), u16s(), u16s(), u16s()]).collect();
+        let sched = (0..n_sched).map(|_| u16s()).collect();
+        let extra = (0..n_extra).map(|_| u16s()).collect();
+        RawCase { head, img, ops, sched, extra }
+    }
+
+    /// Inverse of `from_bytes` (used to seed fuzz corpora from proptest-generated cases)
+    pub fn to_bytes(&self) -> Vec<u8> {
+        let mut out = Vec::new();
+        let mut put = |v: u16| out.extend_from_slice(&v.to_le_bytes());
+        for k in 0..HEAD_LEN {
+            put(self.head.get(k).copied().unwrap_or(0));
+        }
+        put(self.img.len().min(24) as u16);
+        put(self.ops.len().min(40) as u16);
+        put(self.sched.len().min(200) as u16);
+        put(self.extra.len().min(48) as u16);
+        for e in self.img.iter().take(24) {
+            put(e[0]);
+            put(e[1]);
+        }
+        for o in self.ops.iter().take(40) {
+            for v in o {
+                put(*v);
+            }
+        }
+        for v in self.sched.iter().take(200) {
+            put(*v);
+        }
+        for v in self.extra.iter().take(48) {
+            put(*v);
+        }
+        out
+    }
 }
